@@ -9,39 +9,43 @@
 (* data source's text with the component Reports names.                                               *)
 EXTENDS Integers, Sequences, FiniteSets, TLC
 CONSTANTS Uids, Gids, MaxSteps
-VARIABLES ruid, euid, suid, rgid, egid, sgid, session, stdin, cwd, env, depth, calls, hist
-vars == <<ruid, euid, suid, rgid, egid, sgid, session, stdin, cwd, env, depth, calls, hist>>
+VARIABLES ruid, euid, suid, rgid, egid, sgid, session, stdin, cwd, env, host, depth, calls, hist
+vars == <<ruid, euid, suid, rgid, egid, sgid, session, stdin, cwd, env, host, depth, calls, hist>>
 
 Init == /\ ruid = 0 /\ euid = 0 /\ suid = 0 /\ rgid = 0 /\ egid = 0 /\ sgid = 0
-        /\ session = "inherited" /\ stdin = "null" /\ cwd = "work" /\ env = "normal" /\ depth = 1 /\ calls = 0 /\ hist = <<>>
+        /\ session = "inherited" /\ stdin = "null" /\ cwd = "work" /\ env = "normal" /\ host = "inherited" /\ depth = 1 /\ calls = 0 /\ hist = <<>>
 Log(a) == hist' = Append(hist, a)
 Budget == Len(hist) < MaxSteps
 
 (* setresgid / setresuid: privileged processes may set anything; others only permute their current ids *)
 SetResGid(r, e, s) == /\ Budget /\ (euid = 0 \/ {r, e, s} \subseteq {rgid, egid, sgid}) /\ <<r, e, s>> # <<rgid, egid, sgid>>
                       /\ rgid' = r /\ egid' = e /\ sgid' = s /\ Log([a |-> "gids", r |-> r, e |-> e, s |-> s])
-                      /\ UNCHANGED <<ruid, euid, suid, session, stdin, cwd, env, depth, calls>>
+                      /\ UNCHANGED <<ruid, euid, suid, session, stdin, cwd, env, host, depth, calls>>
 SetResUid(r, e, s) == /\ Budget /\ (euid = 0 \/ {r, e, s} \subseteq {ruid, euid, suid}) /\ <<r, e, s>> # <<ruid, euid, suid>>
                       /\ ruid' = r /\ euid' = e /\ suid' = s /\ Log([a |-> "ids", r |-> r, e |-> e, s |-> s])
-                      /\ UNCHANGED <<rgid, egid, sgid, session, stdin, cwd, env, depth, calls>>
+                      /\ UNCHANGED <<rgid, egid, sgid, session, stdin, cwd, env, host, depth, calls>>
 Setsid == /\ Budget /\ session = "inherited" /\ session' = "own" /\ Log([a |-> "setsid"])
-          /\ UNCHANGED <<ruid, euid, suid, rgid, egid, sgid, stdin, cwd, env, depth, calls>>
+          /\ UNCHANGED <<ruid, euid, suid, rgid, egid, sgid, stdin, cwd, env, host, depth, calls>>
 Stdin(x) == /\ Budget /\ x # stdin /\ stdin' = x /\ Log([a |-> "stdin", to |-> x])
-            /\ UNCHANGED <<ruid, euid, suid, rgid, egid, sgid, session, cwd, env, depth, calls>>
+            /\ UNCHANGED <<ruid, euid, suid, rgid, egid, sgid, session, cwd, env, host, depth, calls>>
 Chdir(x) == /\ Budget /\ x # cwd /\ euid = 0 /\ cwd' = x /\ Log([a |-> "cwd", to |-> x])
-            /\ UNCHANGED <<ruid, euid, suid, rgid, egid, sgid, session, stdin, env, depth, calls>>
+            /\ UNCHANGED <<ruid, euid, suid, rgid, egid, sgid, session, stdin, env, host, depth, calls>>
 Env(x) == /\ Budget /\ x # env /\ env' = x /\ Log([a |-> "env", to |-> x])
-          /\ UNCHANGED <<ruid, euid, suid, rgid, egid, sgid, session, stdin, cwd, depth, calls>>
+          /\ UNCHANGED <<ruid, euid, suid, rgid, egid, sgid, session, stdin, cwd, host, depth, calls>>
+(* sethostname in the harness's own UTS namespace: 1, 63 and 64 (HOST_NAME_MAX) byte names *)
+Hostname(x) == /\ Budget /\ x # host /\ euid = 0 /\ host' = x /\ Log([a |-> "host", to |-> x])
+               /\ UNCHANGED <<ruid, euid, suid, rgid, egid, sgid, session, stdin, cwd, env, depth, calls>>
 (* fork: the child continues, one level deeper in the ancestry; its name is chosen by the harness *)
 Fork(n) == /\ Budget /\ depth < 3 /\ depth' = depth + 1 /\ Log([a |-> "fork", name |-> n])
-           /\ UNCHANGED <<ruid, euid, suid, rgid, egid, sgid, session, stdin, cwd, env, calls>>
+           /\ UNCHANGED <<ruid, euid, suid, rgid, egid, sgid, session, stdin, cwd, env, host, calls>>
 (* an exec call (failing): every data source is evaluated in the current state *)
 Call == /\ Budget /\ calls < 2 /\ calls' = calls + 1 /\ Log([a |-> "call"])
-        /\ UNCHANGED <<ruid, euid, suid, rgid, egid, sgid, session, stdin, cwd, env, depth>>
+        /\ UNCHANGED <<ruid, euid, suid, rgid, egid, sgid, session, stdin, cwd, env, host, depth>>
 Next == \/ \E r, e, s \in Gids : SetResGid(r, e, s)
         \/ \E r, e, s \in Uids : SetResUid(r, e, s)
-        \/ Setsid \/ (\E x \in {"null", "pty", "pipe"} : Stdin(x)) \/ (\E x \in {"work", "deep", "renamed"} : Chdir(x))
-        \/ (\E x \in {"normal", "empty", "sudo", "logname", "huge", "noeq"} : Env(x))
+        \/ Setsid \/ (\E x \in {"null", "pty", "pipe"} : Stdin(x)) \/ (\E x \in {"work", "deep", "renamed", "deleted", "toolong"} : Chdir(x))
+        \/ (\E x \in {"normal", "empty", "sudo", "logname", "huge", "noeq", "sudo254", "logname300"} : Env(x))
+        \/ (\E x \in {"h1", "h63", "h64"} : Hostname(x))
         \/ (\E n \in {"plain", "paren", "space"} : Fork(n)) \/ Call
 Spec == Init /\ [][Next]_vars
 
